@@ -44,6 +44,12 @@ def make_traced_channel():
             if w is not None:
                 w.chan_events.append((w.sched.steps if w.sched else 0, w.thread_name(), self.sock_fd, what))
 
+        def write_soon(self, data):
+            n = len(data) if not hasattr(data, "prepare") else data.__len__()
+            if n > getattr(self, "max_write", 0):
+                self.max_write = n
+            return HTTPChannel.write_soon(self, data)
+
         @property
         def total_outbufs_len(self):
             return self._tol
@@ -119,6 +125,7 @@ class SchedRun:
         self.app = app if app is not None else A.MultiConnApp(sc.get("apps") or [{"status": "200 OK", "mode": "list", "chunks": ["ok"]}],
                                                             hook=self._app_hook)
         self.app_spans = []   # (conn fd?, idx, "enter"/"exit", step)
+        self.stalled_apps = 0
         app_inner = self.app
         run = self
 
@@ -159,6 +166,10 @@ class SchedRun:
 
     # ---- actors
     def _app_hook(self, idx, what, k):
+        if what == "stall":
+            self.stalled_apps += 1
+            self.sched.block(lambda: False, "app.stall")
+            return
         self.sched.yield_point("app." + what)
 
     def _has_response_progress(self, ci, base):
@@ -240,10 +251,21 @@ class SchedRun:
         w = self.world
         chans = []
         for ch in w.channels:
-            chans.append({"fd": ch.sock_fd, "tol": ch.total_outbufs_len, "max_tol": ch.max_tol, "requests": len(ch.requests),
+            so = w.fds.get(ch.sock_fd)
+            chans.append({"sock_writable": bool(so is not None and so.w_ready()), "sock_closed": bool(so is None or so.closed),
+                          "max_write": getattr(ch, "max_write", 0),
+                          "fd": ch.sock_fd, "tol": ch.total_outbufs_len, "max_tol": ch.max_tol, "requests": len(ch.requests),
                           "request_partial": ch.request is not None, "will_close": ch.will_close, "cwf": ch.close_when_flushed,
                           "connected": ch.connected, "in_map": ch.sock_fd in w.map, "sent_continue": ch.sent_continue})
-        return {"blocked": self.sched.blocked(), "spin": self.sched.spin, "channels": chans,
+        parked = []
+        for t in self.sched.threads:
+            if t.state == "blocked" and t.what == "cond.wait":
+                for ch in w.channels:
+                    if t.wait_obj is ch.outbuf_lock:
+                        parked.append((t.name, ch.sock_fd))
+        disp = w.task_dispatcher
+        idle_workers = [t.name for t in self.sched.threads if t.state == "blocked" and t.what == "cond.wait" and t.wait_obj is getattr(disp, "queue_cv", None)]
+        return {"blocked": self.sched.blocked(), "spin": self.sched.spin, "channels": chans, "parked_producers": parked, "idle_workers": idle_workers,
                 "queue": len(getattr(w.task_dispatcher, "queue", ())), "steps": self.sched.steps}
 
     def result(self):
